@@ -405,12 +405,11 @@ func (e *c17Exec) runOp(in *inputs, oc *opCtx, ci, oi int, op *C17Op) string {
 	}()
 	st.NodeSteps += oc.nodes
 	if panicked == "" && sentinelTail != nil {
+		// by identity, without evaluating anything more (an extra Evaluate here would itself change
+		// what the next operation finds, e.g. recycle and clean a pooled context)
 		for k := 0; k < 2; k++ {
-			save := *oc
-			out, err := e.sentinelProg[k].fp.Evaluate(nil, sentinelTail[k])
-			*oc = save
-			if err != nil || len(out) != 1 || out[0] != system.String(fmt.Sprintf("sentinel-%d", k)) {
-				e.violate("option-model", "caller-options-overwritten", fmt.Sprintf("%s: the caller's option slice was written to behind the options it passed (slot %d no longer holds the caller's option: %v %v)", where, k, out, err))
+			if ifaceData(sentinelTail[k]) != ifaceData(e.sentinelOpts[k]) {
+				e.violate("option-model", "caller-options-overwritten", fmt.Sprintf("%s: the caller's option slice was written to behind the options it passed (slot %d no longer holds the caller's option)", where, k))
 				break
 			}
 		}
@@ -794,7 +793,6 @@ func execC17(t *testing.T, c *Case) *Verdict {
 		defer func() { compileOptCache = nil }()
 		for k := 0; k < 2; k++ {
 			e.sentinelOpts[k] = evalopts.EnvVariable(fmt.Sprintf("zs%d", k), system.String(fmt.Sprintf("sentinel-%d", k)))
-			e.sentinelProg[k] = compile(ProgSpec{Src: fmt.Sprintf("%%zs%d", k)}, nil)
 		}
 		v.Stats.probeN("enumerated-evaluate-option-lists", c.C17.EnumEval)
 		v.Stats.probeN("enumerated-compile-option-lists", c.C17.EnumCompile)
